@@ -217,18 +217,31 @@ def _model_py():
          "plain handler: storage changed")
     need(len(p.orelse) == 1 and isinstance(p.orelse[0], ast.If) and u(p.orelse[0].test) == "op in ['list', 'oneormore', 'zeroormore']", "list handler not found")
     lh = p.orelse[0]
-    # since d92ace3 the separator of the repetition is fetched before the loop and its nodes are skipped by identity
+    # how separator nodes are told from value nodes: three recognised shapes
     lbody = list(lh.body)
-    sep_by_identity = len(lbody) == 2 and u(lbody[0]) == "sep_rule = getattr(node.rule, 'sep', None)"
-    if sep_by_identity:
-        lbody = lbody[1:]
-    need(len(lbody) == 1 and isinstance(lbody[0], ast.For) and u(lbody[0].iter) == "node" and u(lbody[0].target) == "n", "list handler loop changed")
-    inner = lbody[0].body
-    need(len(inner) == 1 and isinstance(inner[0], ast.If) and u(inner[0].test) == (
-        "sep_rule is None or n.rule is not sep_rule" if sep_by_identity else "n.rule_name != 'sep'"), "list handler separator test changed")
+    shapes = {
+        "SepByName": (None, "for n in node", "n.rule_name != 'sep'"),
+        "SepByNode": ("sep_rule = getattr(node.rule, 'sep', None)", "for n in node", "sep_rule is None or n.rule is not sep_rule"),
+        "SepByPosition": ("has_sep = getattr(node.rule, 'sep', None) is not None", "for (idx, n) in enumerate(node)", "not (has_sep and idx % 2)"),
+    }
+    sep_mode = None
+    for mode, (prelude, head, test) in shapes.items():
+        lb = lbody
+        if prelude is not None:
+            if not (len(lb) == 2 and u(lb[0]) == prelude):
+                continue
+            lb = lb[1:]
+        if len(lb) == 1 and isinstance(lb[0], ast.For) and "for %s in %s" % (u(lb[0].target), u(lb[0].iter)) == head \
+                and len(lb[0].body) == 1 and isinstance(lb[0].body[0], ast.If) and u(lb[0].body[0].test) == test and not lb[0].body[0].orelse:
+            sep_mode = mode
+            inner = lb[0].body
+            break
+    need(sep_mode is not None, "list handler loop / separator test changed: " + " ; ".join(u(x).split("\n")[0] for x in lbody))
     tail = inner[0].body[-2:]
     need(u(tail[0]) == "if not hasattr(obj_attr, attr_name) or getattr(obj_attr, attr_name) is None:\n    setattr(obj_attr, attr_name, [])"
          and u(tail[1]) == "getattr(obj_attr, attr_name).append(value)", "list handler storage changed")
+    need(u(inner[0].body[0]) == "value = process_node(n)", "list handler value conversion changed")
+    return sep_mode
 
 
 def translate():
@@ -242,7 +255,7 @@ def translate():
         bool_many_rejected = "[]"
     else:
         bool_many_rejected = "[" + "; ".join(_mult_list(post, names, "attribute post-check")) + "]"
-    _model_py()
+    sep_mode = _model_py()
     b2c = lambda x: "true" if x else "false"
     lst = lambda l: "[" + "; ".join(l) + "]"
     emit("SrcMult", "\n".join([
@@ -270,5 +283,7 @@ def translate():
         "Definition src_branch_merged : bool := %s." % b2c(w["merged"]),
         "(* visit_textx_rule: multiplicities for which a `?=` attribute is rejected after the update ([] = no such check) *)",
         "Definition src_bool_rejected_mults : list mult := %s." % bool_many_rejected,
+        "(* textx/model.py list-assignment handler: how separator nodes are skipped *)",
+        "Definition src_sep_mode : sepmode := %s." % sep_mode,
     ]) + "\n")
     return []
